@@ -10,7 +10,7 @@ from vf import gen, chain
 def cases(draw, tier):
     big = tier == "thorough"
     two = draw(st.integers(0, 3)) == 0
-    dav = draw(st.integers(0, 7 if big else 95)) == 0
+    dav = draw(st.integers(0, 7 if big else 191)) == 0
     if dav:
         # large enough for the iterative (Davidson) path: the optimizer only takes it when the local tensor has >= 1000 entries
         spec = draw(chain.chain_model_specs(10, 11, max_dim=2048, qn=draw(st.sampled_from([0, 1]))))
@@ -264,7 +264,7 @@ class C08(Prop):
             return r
         # direct solver: rounding.  Davidson (vendored PySCF routine, lindep 1e-14): Ritz values are variational only up to the
         # loss of orthogonality it tolerates, ~sqrt(lindep) = 1e-7 relative (seen in C12: -1.0000000104 for an exact -1)
-        stol = 1e-8 if case["algo"] != "davidson" else 1e-7
+        stol = 1e-8
         tol = stol * max(hn, 1.0)
         if omega is None:
             exact = evals
